@@ -260,7 +260,7 @@ def run(ctx):
     from props import helpers
     helpers.interpolate_pva(ctx, py, "C10")
     helpers.numpy_contracts_standin(ctx, py, "C10")
-    _standin(ctx, py)
+    ctx.guard(_standin, ctx, py)
 
 
 def _replay(py, name, cex):
